@@ -355,6 +355,14 @@ func (x *Exec) validatorVerdict(val IfaceV, tag StrV) Val {
 		}
 		return IfaceV{}
 	}
+	if _, isStr := val.V.(StrV); isStr {
+		// a constraint text the validator cannot even parse (undefined rule) panics whatever the value is
+		if err := nativeValidate("x", t); err != nil {
+			if _, isPanic := err.(errPanicInValidator); isPanic {
+				panic(panicV{msg: "validator panicked on constraint " + t})
+			}
+		}
+	}
 	if sv, isStr := val.V.(StrV); isStr && !sv.Opaque {
 		// symbolic ASCII string: required / min / max / omitempty are modelled on its (concrete) length
 		violated := false
